@@ -365,6 +365,54 @@ func (w *world) mkSpendOf(m *model.Ledger, ins []model.Hash, hours uint64) (mode
 	return tx, true
 }
 
+// mkFanOut spends the owned unspent output with the most coins into n outputs of about equal size, paying the
+// required fee, so that many independent outputs exist afterwards.
+func (w *world) mkFanOut(m *model.Ledger, n int) (model.Txn, bool) {
+	var best model.Hash
+	var bc uint64
+	for _, id := range w.ownedUnspents(m) {
+		u := m.Unspent[id]
+		if u.Addr != w.locked.m && u.Coins > bc {
+			best, bc = id, u.Coins
+		}
+	}
+	unit := uint64(1000000)
+	if bc < uint64(n)*unit {
+		return model.Txn{}, false
+	}
+	u := m.Unspent[best]
+	h, ov, inter := model.AccruedHours(u, m.Head().Head.Time)
+	if ov || inter || !h.IsUint64() {
+		return model.Txn{}, false
+	}
+	hours := h.Uint64()
+	burn := uint64(m.Cfg.Unconfirmed.BurnFactor)
+	fee := (hours + burn - 1) / burn
+	if fee == 0 {
+		return model.Txn{}, false
+	}
+	rest := hours - fee
+	tx := model.Txn{In: []model.Hash{best}}
+	per := bc / uint64(n) / unit * unit
+	for i := 0; i < n; i++ {
+		c := per
+		if i == n-1 {
+			c = bc - per*uint64(n-1)
+		}
+		hh := rest / uint64(n)
+		if i == n-1 {
+			hh = rest - rest/uint64(n)*uint64(n-1)
+		}
+		// distinct (address, coins, hours) triples: vary the hours a little
+		if hh > uint64(i) {
+			hh -= uint64(i)
+		}
+		tx.Out = append(tx.Out, model.Out{Addr: w.clients[i%len(w.clients)].m, Coins: c, Hours: hh})
+	}
+	w.sign(m, &tx)
+	return tx, true
+}
+
 // mkOverflowCombo: one owned output whose accrued hours at the head time exceed 2^64-1 and one ordinary owned
 // output, spent together.
 func (w *world) mkOverflowCombo(m *model.Ledger) (model.Txn, bool) {
